@@ -118,7 +118,7 @@ struct Exec {
     QMap<QString, QSet<QString>> pres;
     bool open = false, sm = true, resumable = true, viewDefined = true;
     QByteArray pendingRosterId;   // id of the outstanding roster request ("" = none)
-    QList<QByteArray> answeredRosterIds;
+    QList<QByteArray> answeredRosterIds, seenRosterIds;
     int pushCounter = 0, sessions = 0;
     QStringList signalLog;
     int wirePos = 0;
@@ -152,9 +152,12 @@ struct Exec {
             const auto el = parseXml(QByteArray("<w xmlns='jabber:client'>") + it + "</w>", &d).firstChildElement();
             const auto type = el.attribute(QStringLiteral("type"));
             if (type == QLatin1String("get") && el.firstChildElement().namespaceURI() == QLatin1String("jabber:iq:roster")) {
-                // a request that was already answered may be retransmitted after <resumed h='0'/>: it is not outstanding
-                if (!answeredRosterIds.contains(el.attribute(QStringLiteral("id")).toUtf8())) {
-                    pendingRosterId = el.attribute(QStringLiteral("id")).toUtf8();
+                // a request seen before is a stream-management retransmission (after <resumed h='0'/>, or of a request that was
+                // cancelled when resumption failed): it is not a new outstanding request
+                const auto id = el.attribute(QStringLiteral("id")).toUtf8();
+                if (!seenRosterIds.contains(id)) {
+                    seenRosterIds << id;
+                    pendingRosterId = id;
                     witness("roster_requests");
                 }
             } else if (type == QLatin1String("result") || type == QLatin1String("error")) {
@@ -333,8 +336,8 @@ struct Exec {
             rig.server.closePeer(true);
             rig.sync();
             open = false;
-            pendingRosterId.clear();
             if (!(sm && resumable)) {
+                pendingRosterId.clear();   // a resumable loss keeps the request outstanding: it can be answered after <resumed/>
                 viewDefined = false;   // between sessions nothing is demanded
             }
             witness("drops");
@@ -362,6 +365,7 @@ struct Exec {
             }
             sm = e.type == Event::ReconnectNewSm;
             resumable = sm;
+            pendingRosterId.clear();
             newSessionModel();
             if (!login(sm, -1)) {
                 break;
